@@ -1,13 +1,20 @@
 //! C14: whitespace corruption and the labels of the whitespace-correction task,
 //! through the public `preprocessing(WhitespaceCorruption)` and
 //! `train_task(WhitespaceCorrection)`.
-//! input  = (g text cseg seed ks iw dw np ns kf1 ss)
+//! input  = (g text cseg seed ks iw dw np ns kf1 ss iwf dwf)
+//!          iwf dwf  the two probabilities AS THE CODE RECEIVES THEM: any binary64 value, decomposed
+//!                   ((0 m e) = m * 2^e | (1 0 0) +inf | (2 0 0) NaN | (3 m e) negative, -0.0 = (3 0 -1074), -inf = (3 0 1)).
+//!                   The model's SEEDED run (first line of `agree`) reads only g, the text, seed, np, ns, iwf, dwf:
+//!                   it computes the r-stream from the seed (ChaCha8 + seed_from_u64 + random::<f64> in Gallina) and
+//!                   the thresholds ceil(p * 2^53) itself. ks, iw, dw, cseg are kept for the oracle model (second
+//!                   line) and cross-checked against what the model computes.
 //!          text  clusters of the text (unicode-segmentation; compared with the model's `segment` by `agree`)
 //!          cseg  clusters of the real corrupted text (the same; `()` if rejected)
 //!          kf1   the known-finding class flag (below); ss = `corrupt_safe text` as evaluated by
 //!                harness/src/seam.rs (compared with the model's `corrupt_safe` by `agree`)
 //!          ks    the draws r*2^53 of ChaCha8Rng::seed_from_u64(seed), one per character
-//!          iw dw numerators of the probabilities over 2^53 (clamped by the code)
+//!          iw dw the integer thresholds ceil(clamp(p) * 2^53) of the two probabilities, as computed HERE in f64
+//!                (r < p  <=>  k < threshold for r = k / 2^53); compared with the model's own by `agree`
 //! output = (0) | (1 corrupted target (labels)? same-again)
 use rand::{Rng as _, SeedableRng};
 use rand_chacha::ChaCha8Rng;
@@ -30,9 +37,64 @@ struct C14;
 
 const TWO53: f64 = 9007199254740992.0;
 
+/// the probability a numerator over 2^53 stands for (old corpus lines; exact for |n| <= 2^53 and small multiples)
 fn prob(n: i64) -> f64 {
-    // exact for every numerator the generator uses (|n| <= 2^53, or a small multiple of 2^52)
     n as f64 / TWO53
+}
+
+/// ceil(clamp(p, 0, 1) * 2^53): the scaling by a power of two and `ceil` are exact; NaN compares false with
+/// everything, like a threshold 0
+fn threshold(p: f64) -> i64 {
+    let c = p.clamp(0.0, 1.0);
+    if c.is_nan() {
+        0
+    } else {
+        (c * TWO53).ceil() as i64
+    }
+}
+
+/// binary64 on the wire, exact (see the module comment)
+fn f64_val(x: f64) -> Val {
+    let t = |k: i64, m: i64, e: i64| Val::L(vec![Val::I(k), Val::I(m), Val::I(e)]);
+    if x.is_nan() {
+        return t(2, 0, 0);
+    }
+    if x == f64::INFINITY {
+        return t(1, 0, 0);
+    }
+    if x == f64::NEG_INFINITY {
+        return t(3, 0, 1);
+    }
+    let b = x.to_bits() & !(1u64 << 63);
+    let (e, f) = ((b >> 52) as i64, (b & ((1u64 << 52) - 1)) as i64);
+    let (m, e) = if e == 0 { (f, -1074) } else { (f + (1i64 << 52), e - 1075) };
+    t(if x.is_sign_negative() { 3 } else { 0 }, m, e)
+}
+
+/// inverse of `f64_val`; `None` unless canonical
+fn val_f64(v: &Val) -> Option<f64> {
+    let l = v.as_l()?;
+    if l.len() != 3 {
+        return None;
+    }
+    let (k, m, e) = (l[0].as_i()?, l[1].as_i()?, l[2].as_i()?);
+    let mag = || {
+        if (0..1i64 << 52).contains(&m) && e == -1074 {
+            Some(f64::from_bits(m as u64))
+        } else if (1i64 << 52..1i64 << 53).contains(&m) && (-1074..=971).contains(&e) {
+            Some(f64::from_bits((((e + 1075) as u64) << 52) | (m as u64 - (1u64 << 52))))
+        } else {
+            None
+        }
+    };
+    match k {
+        0 => mag(),
+        1 if m == 0 && e == 0 => Some(f64::INFINITY),
+        2 if m == 0 && e == 0 => Some(f64::NAN),
+        3 if m == 0 && e == 1 => Some(f64::NEG_INFINITY),
+        3 => mag().map(|x| -x),
+        _ => None,
+    }
 }
 
 fn draws(seed: u64, n: usize) -> Vec<i64> {
@@ -56,13 +118,13 @@ fn info(seed: u64) -> TextDataInfo {
 }
 
 /// the real corruption: None = the configuration is rejected (constructor panics)
-fn corrupt(text: &str, seed: u64, iw: i64, dw: i64, g: bool) -> Option<(String, String)> {
+fn corrupt(text: &str, seed: u64, iw: f64, dw: f64, g: bool) -> Option<(String, String)> {
     let text = text.to_string();
     std::panic::catch_unwind(move || {
         let f = preprocessing(PreprocessingFnConfig::WhitespaceCorruption(
             Part::Input,
-            prob(iw),
-            prob(dw),
+            iw,
+            dw,
             g,
         ));
         let (item, _) = f(TrainData::new(text, None), info(seed)).expect("corruption failed");
@@ -129,24 +191,71 @@ fn word(rng: &mut Rng, _g: bool, seam: bool, ascii_only: bool) -> String {
     w
 }
 
-fn numerator(rng: &mut Rng) -> i64 {
-    let one = 1i64 << 53;
-    match rng.below(20) {
-        0..=1 => 0,
-        2..=3 => one,
-        4..=8 => one / 2,
-        9..=10 => one / 4,
-        11 => one / 8 * 7,
-        12 => 1,               // 2^-53: only the draw 0 is below
-        13 => one - 1,
-        14 => -(one / 2),      // clamped to 0
-        15 => one * 2,         // clamped to 1
-        16 => one / 2 * 3,     // 1.5 -> 1
-        _ => (rng.next_u64() >> 11) as i64, // arbitrary multiple of 2^-53
+/// next representable binary64 above / below a positive finite value
+fn next_up(x: f64) -> f64 {
+    f64::from_bits(x.to_bits() + 1)
+}
+fn next_down(x: f64) -> f64 {
+    if x == 0.0 {
+        -0.0
+    } else {
+        f64::from_bits(x.to_bits() - 1)
     }
 }
 
-fn mk_input(text: &str, g: bool, seed: u64, iw: i64, dw: i64, np: usize, ns: usize) -> Val {
+/// a probability as a configuration can contain it: ANY binary64 value
+fn probability(rng: &mut Rng) -> f64 {
+    let one = TWO53;
+    match rng.below(26) {
+        0..=1 => 0.0,
+        2..=3 => 1.0,
+        4..=7 => 0.5,
+        8 => 0.25,
+        9 => 0.875,
+        10 => 1.0 / one,         // 2^-53: only the draw 0 is below
+        11 => (one - 1.0) / one, // every draw but the largest is below
+        12 => -0.5,              // clamped to 0
+        13 => 2.0,               // clamped to 1
+        14 => 1.5,
+        // what configuration files contain: decimal fractions, not multiples of 2^-53
+        15..=18 => *rng.pick(&[0.1, 0.2, 0.3, 0.05, 0.9, 0.7, 1.0 / 3.0, 0.01, 0.99, 0.15, 0.6, 0.999, 1e-3]),
+        // any 53-bit mantissa, exponents -1 .. -8 (thresholds with many low-order bits cut off by the ceiling)
+        19..=20 => f64::from_bits(((1022 - rng.below(8) as u64) << 52) | (rng.next_u64() >> 12)),
+        // far below 2^-53 (threshold 1: positive, yet only the draw 0 is below), subnormal, tiny
+        21 => *rng.pick(&[1e-300, f64::MIN_POSITIVE, 5e-324, 7.52316384526264e-37, 1.1102230246251565e-16 / 128.0]),
+        22 => *rng.pick(&[
+            f64::EPSILON,
+            1.0 - f64::EPSILON / 2.0,
+            1.0 + f64::EPSILON,
+            0.49999999999999994,
+            0.5000000000000001,
+            f64::MAX,
+            f64::INFINITY,
+            f64::NEG_INFINITY,
+            -0.0,
+            -1e-300,
+            f64::NAN,
+        ]),
+        _ => (rng.next_u64() >> 11) as f64 / one, // arbitrary multiple of 2^-53
+    }
+}
+
+/// a probability ON the decision boundary of this case: one of the draws r_j of the seed's own stream
+/// (then `r_j < p` is false, `r_j <= p` would be true), its successor or predecessor in binary64
+fn boundary_probability(rng: &mut Rng, seed: u64, n: usize) -> Option<f64> {
+    if n == 0 {
+        return None;
+    }
+    let ks = draws(seed, n);
+    let r = ks[rng.below(n)] as f64 / TWO53;
+    Some(match rng.below(4) {
+        0..=1 => r,
+        2 => next_up(r),
+        _ => next_down(r),
+    })
+}
+
+fn mk_input(text: &str, g: bool, seed: u64, iw: f64, dw: f64, np: usize, ns: usize) -> Val {
     let n = CharString::new(text, g).len();
     let ks = draws(seed, n);
     let (cseg, kf1) = match corrupt(text, seed, iw, dw, g) {
@@ -160,12 +269,14 @@ fn mk_input(text: &str, g: bool, seed: u64, iw: i64, dw: i64, np: usize, ns: usi
         cseg,
         Val::I(seed as i64),
         Val::L(ks.into_iter().map(Val::I).collect()),
-        Val::I(iw),
-        Val::I(dw),
+        Val::I(threshold(iw)),
+        Val::I(threshold(dw)),
         Val::u(np),
         Val::u(ns),
         Val::b(kf1),
         Val::b(ss),
+        f64_val(iw),
+        f64_val(dw),
     ])
 }
 
@@ -240,13 +351,24 @@ impl Prop for C14 {
             1 => 22, // the default seed used by the crate's tests is 0; keep some fixed ones
             _ => rng.next_u64() >> 2,
         };
-        let (mut iw, mut dw) = (numerator(rng), numerator(rng));
+        let (mut iw, mut dw) = (probability(rng), probability(rng));
+        // one case in eight: a probability exactly on (or one ulp beside) a draw of this very stream
+        if rng.chance(1, 8) {
+            let n = CharString::new(&text, g).len();
+            if let Some(p) = boundary_probability(rng, seed, n) {
+                if rng.chance(1, 2) {
+                    dw = p;
+                } else {
+                    iw = p;
+                }
+            }
+        }
         // both zero is the rejected configuration: keep it rare
-        if iw <= 0 && dw <= 0 && rng.chance(9, 10) {
+        if !(iw > 0.0) && !(dw > 0.0) && rng.chance(9, 10) {
             if rng.chance(1, 2) {
-                iw = 1i64 << 52;
+                iw = 0.5;
             } else {
-                dw = 1i64 << 53;
+                dw = 1.0;
             }
         }
         let np = rng.below(3);
@@ -257,8 +379,7 @@ impl Prop for C14 {
     fn exhaustive(&mut self, _tier: Tier) -> Vec<Val> {
         // every clean text of up to 4 letters over {a, e + U+0301} with every spacing,
         // x 4 seeds x 5 probability pairs x both modes
-        let one = 1i64 << 53;
-        let probs = [(one / 2, one / 2), (one, 0), (0, one), (one, one), (one / 4, one / 8 * 7)];
+        let probs = [(0.5, 0.5), (1.0, 0.0), (0.0, 1.0), (1.0, 1.0), (0.25, 0.875), (0.1, 0.3)];
         let letters = ["a", "e\u{301}"];
         let mut texts = vec![String::new()];
         for n in 1..=4usize {
@@ -290,7 +411,7 @@ impl Prop for C14 {
 
     fn run(&mut self, input: &Val) -> Option<(Val, Vec<String>)> {
         let l = input.as_l()?;
-        if l.len() != 11 {
+        if l.len() != 13 {
             return None;
         }
         let g = l[0].as_bool()?;
@@ -303,8 +424,12 @@ impl Prop for C14 {
             return None;
         }
         let seed = u64::try_from(l[3].as_i()?).ok()?;
-        let (iw, dw) = (l[5].as_i()?, l[6].as_i()?);
-        if prob(iw) * TWO53 != iw as f64 || prob(dw) * TWO53 != dw as f64 {
+        let (iw, dw) = (val_f64(&l[11])?, val_f64(&l[12])?);
+        if f64_val(iw) != l[11] || f64_val(dw) != l[12] {
+            return None;
+        }
+        // the integer thresholds handed to the oracle model must be the ones of these probabilities
+        if l[5].as_i()? != threshold(iw) || l[6].as_i()? != threshold(dw) {
             return None;
         }
         let (np, ns) = (l[7].as_usize()?, l[8].as_usize()?);
@@ -319,6 +444,15 @@ impl Prop for C14 {
         }
         let first = corrupt(&text, seed, iw, dw, g);
         let mut tags = vec![if g { "g".to_string() } else { "cp".to_string() }];
+        // a probability that is no multiple of 2^-53 (the ceiling in the threshold matters)
+        let dyadic = |p: f64| p.is_nan() || p.is_infinite() || (p * TWO53).fract() == 0.0;
+        if !dyadic(iw) || !dyadic(dw) {
+            tags.push("p-nondyadic".into());
+        }
+        // a probability equal to one of the draws of this case (the boundary r == p)
+        if ks.iter().any(|k| *k as f64 / TWO53 == iw || *k as f64 / TWO53 == dw) {
+            tags.push("p-on-draw".into());
+        }
         let out = match &first {
             None => {
                 if !l[2].as_l()?.is_empty() || l[9].as_bool()? {
@@ -398,18 +532,26 @@ impl Prop for C14 {
 
     fn canon(&mut self, input: &Val) -> Option<Val> {
         let l = input.as_l()?;
-        if l.len() != 9 && l.len() != 11 {
+        if l.len() != 9 && l.len() != 11 && l.len() != 13 {
             return None;
         }
         let g = l[0].as_bool()?;
         let text = l[1].clusters_to_string()?;
         let seed = u64::try_from(l[3].as_i()?).ok()?;
+        // the probabilities: the binary64 fields when present (a shrunk m or e that is no longer canonical falls
+        // back to the threshold), else (lines written before they existed) the numerators over 2^53
+        let p = |k: usize| -> Option<f64> {
+            match l.get(11 + k).and_then(val_f64) {
+                Some(p) => Some(p),
+                None => Some(prob(l[5 + k].as_i()?)),
+            }
+        };
         Some(mk_input(
             &text,
             g,
             seed,
-            l[5].as_i()?,
-            l[6].as_i()?,
+            p(0)?,
+            p(1)?,
             l[7].as_usize()?.min(4),
             l[8].as_usize()?.min(4),
         ))
